@@ -140,8 +140,11 @@ impl<'a> UnresolvedAddress<'a> {
                     Ok(ipv6::Address::from_octets(bytes))
                 }
                 (index, AddressMode::InLine16bits(inline)) => {
-                    copy_context(index, &mut bytes[..])?;
+                    // The 16 bits are mapped to an IID of the form 0000:00ff:fe00:XXXX
+                    // (RFC 6282 3.1.1), as in the stateless case.
+                    bytes[11..13].copy_from_slice(&EUI64_MIDDLE_VALUE[..]);
                     bytes[16 - inline.len()..].copy_from_slice(inline);
+                    copy_context(index, &mut bytes[..])?;
                     Ok(ipv6::Address::from_octets(bytes))
                 }
                 (index, AddressMode::FullyElided) => {
